@@ -122,17 +122,18 @@ func (c *Case) Script() []string { return c.res.Script }
 
 // Prop describes one property check.
 type Prop struct {
-	ID          string
-	Level       string // exploration | fault_enumeration
-	Rule        string
-	Assumptions []string
-	Trusted     []string
-	Cases       func(tier string) int
-	Floor       func(tier string) int // minimum distinct non-trivial cases for a "held" verdict
-	Workers     int                   // 0 => NumCPU
-	Race        bool                  // needs the -race binary and race-log post-processing
-	CaseTimeout time.Duration         // wall-clock watchdog per case (inconclusive), default 120s
-	Run         func(c *Case) *Result
+	ID           string
+	Level        string // exploration | fault_enumeration
+	Rule         string
+	Assumptions  []string
+	Trusted      []string
+	Cases        func(tier string) int
+	Floor        func(tier string) int // minimum distinct non-trivial cases for a "held" verdict
+	Workers      int                   // 0 => NumCPU
+	Race         bool                  // needs the -race binary and race-log post-processing
+	RaceAdvisory bool                  // race reports are counted in the evidence but are not verdicts of this property
+	CaseTimeout  time.Duration         // wall-clock watchdog per case (inconclusive), default 120s
+	Run          func(c *Case) *Result
 	// Post runs in the driver after all cases; it may add violations / counters.
 	Post func(a *Agg)
 	// Exhaustive reports whether the tier enumerates a finite space completely.
@@ -513,7 +514,7 @@ func DriverMain(propID, tier string, seed uint64, only []int) int {
 	}
 	wg.Wait()
 	if p.Race {
-		collectRaceReports(raceDir, agg)
+		collectRaceReports(raceDir, agg, p.RaceAdvisory)
 	}
 	if p.Post != nil {
 		p.Post(agg)
@@ -874,7 +875,7 @@ type RaceReport struct {
 	Sample string
 }
 
-func collectRaceReports(dir string, a *Agg) {
+func collectRaceReports(dir string, a *Agg, advisory bool) {
 	files, _ := filepath.Glob(filepath.Join(dir, "*"))
 	reports := map[string]*RaceReport{}
 	total := 0
@@ -908,6 +909,9 @@ func collectRaceReports(dir string, a *Agg) {
 		r := reports[k]
 		if r.Orda {
 			a.Counters["race_reports_orda_distinct"]++
+			if advisory {
+				continue
+			}
 			a.AddViolation(&Violation{Case: -1, Sig: "race:" + r.Key, Msg: fmt.Sprintf("data race reported %d times; first report:\n%s", r.Count, r.Sample)})
 		} else {
 			a.Counters["race_reports_harness_distinct"]++
